@@ -50,10 +50,30 @@ reg("C14",
     assumptions=["the executor is released by the caller right after run() returns or throws"],
     )
 
+reg("C14",
+    name="C14_lifecycle_switch", src="harness/C14_lifecycle_switch.cpp",
+    anchor_files=_ANCHORS + ["src/hgraph/runtime/switch_node.cpp"],
+    quick=dict(defs=dict(NCYC=3, NFAULT=1), symx=dict(shards=16, **{"max-wall": 900})),
+    thorough=dict(defs=dict(NCYC=4, NFAULT=2), symx=dict(shards=16, **{"max-wall": 3000, "shard-depth": 8})),
+    reach=["end", "clean_run", "branch_retired_during_run", "three_instances", "reload_same_key_restarts_branch",
+           "outgoing_branch_stop_fault_at_switch_over", "incoming_branch_start_fault", "incoming_branch_second_node_start_fault",
+           "first_branch_start_fault", "branch_eval_fault", "branch_stop_fault_at_shutdown", "root_fault_with_live_branch"],
+    bounds="root graph valsrc, keysrc -> switch_(keys 0 and 1, each branch graph kidA -> kidB, built by the real wire_switch / switch_node) -> sink; "
+           "one enumerated key action per cycle from {no tick, key 0, key 1} (cycle 0 ticks a key), NCYC cycles, reload_on_ticked on/off, so the "
+           "running branch graph is retired and a new one started during the run (at most NCYC instances, numbered in creation order); NFAULT "
+           "fault descriptors (any node of any instance that will exist or a root node, phase in {start, evaluate, stop}, evaluate occurrence "
+           "symbolic): stop fault on the outgoing branch at the switch-over, start fault on either node of the incoming branch, faults at the "
+           "end of the run; cleanup_on_error on/off; payload values symbolic",
+    outside="switch_ whose output forwards to the child terminal (output_forwards_to_child_terminal); default / key-consuming branches; "
+            "unmatched key; fault pairs in the quick tier (NFAULT=1; thorough has pairs such as outgoing stop + incoming start); nested switch_; "
+            "observer callbacks that throw; real-time executor",
+    assumptions=["the executor is released by the caller right after run() returns or throws"],
+    )
+
 META = dict(
     level="bounded symbolic model checking of the real lifecycle code (graph.cpp start_impl/stop_impl/evaluate_impl, executor.cpp run_storage/stop_storage/"
           "~SimulationExecutorStorage, node.cpp start_impl/stop_impl, nested_graph_node.cpp, map_node.cpp create_entry_at_slot/remove_entry_at_slot/"
-          "map_node_stop, reduce_node.cpp reduce_node_stop / retire path, scope.h guards) under an enumerated fault script: every fault point and fault pair within the bound, clean-up on/off, request_stop",
+          "map_node_stop, reduce_node.cpp reduce_node_stop / retire path, switch_node.cpp activate_branch / switch_teardown / switch_node_stop, scope.h guards) under an enumerated fault script: every fault point and fault pair within the bound, clean-up on/off, request_stop",
     note="scenarios that exposed defects are asserted under their own ids so they can be told apart: "
          "C14.start_rollback_stops_remaining_nodes_after_failing_stop, C14.map_stop_stops_remaining_children_after_failing_child_stop, "
          "C14.reduce_stop_stops_remaining_combiners_after_failing_combiner_stop, C14.reduce_retired_combiner_stop_error_reaches_caller "
